@@ -384,6 +384,19 @@ const OWN_INIT: [(&str, bool, &str, &str); 20] = [
     ("own:sm-of-call", true, "", "int $Q = mk($R).n;"),
 ];
 
+/// (code, definition of the global `$Q`, statements): the global is the object of a subscript / swizzle / member access
+const OBJECT_POSITIONS: [(&str, &str, &str); 9] = [
+    ("ab", "static int $Q[4] = { 6, 7, 8, 9 };", "r += $Q[1];"),
+    ("ab-dynamic", "static int $Q[4] = { 6, 7, 8, 9 };", "r += $Q[x & 3];"),
+    ("ab-write", "static int $Q[4] = { 6, 7, 8, 9 };", "$Q[2] = r;"),
+    ("ab-index-both", "static int $Q[4] = { 2, 7, 8, 9 };", "r += $Q[$Q[0] & 3];"),
+    ("sw", "static int2 $Q = int2(6, 9);", "r += $Q.y;"),
+    ("sw-write", "static int2 $Q = int2(6, 9);", "$Q.x = r;"),
+    ("mx", "static float2x2 $Q = float2x2(1.0f, 2.0f, 3.0f, 4.0f);", "r += (int)$Q._m01;"),
+    ("sm", "static Pair $Q = { 6, 9 };", "r += $Q.n;"),
+    ("sm-method", "static Pair $Q = { 6, 9 };", "r += $Q.get(1);"),
+];
+
 const USE_HELPERS: &str = "int twice(int a)\n{\n    return a * 2;\n}\n\nint add2(int a, int b)\n{\n    return a + b * 3;\n}\n\nvoid bump(inout int a)\n{\n    a += 1;\n}\n\nvoid setout(out int a)\n{\n    a = 17;\n}\n\n";
 const USE_VHELPERS: &str = "struct Pair\n{\n    int m;\n    int n;\n\n    int get(int k)\n    {\n        return m * 2 + n + k;\n    }\n};\n\nPair mk(int a)\n{\n    Pair p = { 1, a };\n    return p;\n}\n\n";
 
@@ -434,6 +447,26 @@ pub fn usage_stream() -> Vec<(String, String, bool)> {
                     ));
                     out.push((format!("use:{}:{}:{}:k{}", code, if function { "function" } else { "global" }, b, k), src, *vector));
                 }
+            }
+        }
+    }
+    // (A') the symbol is a global of array / vector / matrix / struct type and the reference is the *object* field of a
+    // subscript / swizzle / matrix swizzle / member access (C02's `readPaths`)
+    for b in ["pass", "vector"] {
+        for k in 0..2usize {
+            for (code, def, body) in OBJECT_POSITIONS.iter() {
+                let q = format!("{}_{}", b, k);
+                let mut src = String::new();
+                src.push_str(USE_HELPERS);
+                src.push_str(USE_VHELPERS);
+                src.push_str(&def.replace("$Q", &q));
+                src.push_str("\n\n");
+                src.push_str(&consumers(b, k));
+                src.push_str(&format!(
+                    "int f1(int x, int y)\n{{\n    int r = x;\n    int {b} = y + 5;\n    r += {b} * 3;\n{}    r -= {b};\n    return r;\n}}\n",
+                    indent(&body.replace("$Q", &q))
+                ));
+                out.push((format!("obj:{}:global:{}:k{}", code, b, k), src, true));
             }
         }
     }
